@@ -27,6 +27,8 @@ TRANSPARENT = {
     "std::iter::IntoIterator::into_iter": 0,
     "std::slice::<impl [T]>::iter": 0,
     "std::slice::<impl [T]>::iter_mut": 0,
+    "core::slice::<impl [T]>::iter": 0,
+    "core::slice::<impl [T]>::iter_mut": 0,
     "std::slice::<impl [T]>::to_vec": 0,
     "std::iter::Iterator::enumerate": 0,
     "std::iter::Iterator::rev": 0,
@@ -593,3 +595,29 @@ def span_in(inner, outer):
 
 def span_str(sp):
     return "%s:%d:%d" % (sp[0], sp[1], sp[2])
+
+
+ARITH_TRAITS = ("std::ops::Add::add", "std::ops::Sub::sub", "std::ops::Mul::mul", "std::ops::Div::div", "std::ops::Rem::rem",
+                "std::ops::Neg::neg", "std::ops::Shl::shl", "std::ops::Shr::shr", "std::ops::AddAssign::add_assign",
+                "std::ops::SubAssign::sub_assign", "std::ops::MulAssign::mul_assign", "std::ops::DivAssign::div_assign",
+                "std::ops::RemAssign::rem_assign", "std::ops::ShlAssign::shl_assign", "std::ops::ShrAssign::shr_assign",
+                "std::iter::Sum::sum", "std::iter::Product::product")
+INT_TYPES = ("u8", "u16", "u32", "u64", "u128", "usize", "i8", "i16", "i32", "i64", "i128", "isize")
+
+
+def trapping_arith_sites(body):
+    """(block, kind, operands, span) for every arithmetic operation that panics on overflow / zero divisor in the debug
+    profile: MIR Assert terminators and calls to the operator traits on primitive integers (`&a - &b`, `x += &y`)."""
+    out = []
+    for b in range(body.n):
+        t = body.term(b)
+        if not t or body.blocks[b]["cleanup"]:
+            continue
+        if t["k"] == "assert" and (t["kind"].startswith("Overflow") or t["kind"] in ("DivisionByZero", "RemainderByZero")):
+            out.append((b, t["kind"], t["ops"], t["sp"]))
+        elif t["k"] == "call" and t["func"].get("declared") in ARITH_TRAITS:
+            subs = t["func"].get("substs") or [""]
+            st = subs[0].replace("&", "").replace("mut ", "").strip()
+            if st in INT_TYPES:
+                out.append((b, "Overflow(%s on %s)" % (last_seg(t["func"]["declared"]), subs[0]), t["args"], t["sp"]))
+    return out
